@@ -140,6 +140,11 @@ func WellFormed(kind Kind, b []byte) error {
 		m, _ := protectedMap(n)
 		return HeaderRulesWire(m, nil, true, false)
 	case KUnprotected:
+		// The stand-alone bucket decoder is not an envelope: it runs in a mode that
+		// tolerates tags, and the CBOR library looks through tags when it decodes
+		// into typed values. The property only forbids tags inside envelopes, so the
+		// rules are applied to the tree with every tag wrapper removed.
+		n = stripTags(n)
 		if err := unprotectedMap(n); err != nil {
 			return err
 		}
@@ -149,6 +154,21 @@ func WellFormed(kind Kind, b []byte) error {
 		return nestedCountersignatures(n)
 	}
 	return errors.New("unknown kind")
+}
+
+// stripTags returns a copy of the tree without tag wrappers.
+func stripTags(n *Node) *Node {
+	for n.Major == refcbor.Tag && len(n.Kids) == 1 {
+		n = n.Kids[0]
+	}
+	c := *n
+	if n.Kids != nil {
+		c.Kids = make([]*Node, len(n.Kids))
+		for i, k := range n.Kids {
+			c.Kids[i] = stripTags(k)
+		}
+	}
+	return &c
 }
 
 func sign1Body(a *Node) error {
@@ -261,7 +281,7 @@ func unprotectedMap(u *Node) error {
 
 func labels(m *Node) error {
 	for i := 0; i+1 < len(m.Kids); i += 2 {
-		k := m.Kids[i]
+		k := Untag(m.Kids[i])
 		if k.Major == refcbor.Tstr {
 			continue
 		}
@@ -290,7 +310,7 @@ func layer(p, u *Node) error {
 // nestedCountersignatures recurses into labels 7 and 11 of an unprotected map.
 func nestedCountersignatures(u *Node) error {
 	for i := 0; i+1 < len(u.Kids); i += 2 {
-		l, ok := u.Kids[i].Int64()
+		l, ok := Untag(u.Kids[i]).Int64()
 		if !ok || (l != 7 && l != 11) {
 			continue
 		}
@@ -314,14 +334,25 @@ func nestedCountersignatures(u *Node) error {
 	return nil
 }
 
+// Untag strips tag 55799 ("self-described CBOR", RFC 8949 section 3.4.6: it
+// does not change the semantics of the tagged item; the CBOR library drops
+// it while decoding). The rules below look through it so that they never
+// demand more than the property states.
+func Untag(n *Node) *Node {
+	for n != nil && n.Major == refcbor.Tag && n.Arg == 55799 && len(n.Kids) == 1 {
+		n = n.Kids[0]
+	}
+	return n
+}
+
 // Lookup returns the value of integer label l in map m (nil if absent or m nil).
 func Lookup(m *Node, l int64) *Node {
 	if m == nil {
 		return nil
 	}
 	for i := 0; i+1 < len(m.Kids); i += 2 {
-		if v, ok := m.Kids[i].Int64(); ok && v == l {
-			return m.Kids[i+1]
+		if v, ok := Untag(m.Kids[i]).Int64(); ok && v == l {
+			return Untag(m.Kids[i+1])
 		}
 	}
 	return nil
@@ -340,11 +371,11 @@ func HeaderRulesWire(prot, unprot *Node, haveProt, haveUnprot bool) error {
 			return nil
 		}
 		for i := 0; i+1 < len(m.Kids); i += 2 {
-			l, ok := m.Kids[i].Int64()
+			l, ok := Untag(m.Kids[i]).Int64()
 			if !ok {
 				continue
 			}
-			v := m.Kids[i+1]
+			v := Untag(m.Kids[i+1])
 			switch l {
 			case 1:
 				if !v.IsInt() && v.Major != refcbor.Tstr {
@@ -358,13 +389,14 @@ func HeaderRulesWire(prot, unprot *Node, haveProt, haveUnprot bool) error {
 					return errors.New("crit: not a non-empty array")
 				}
 				for _, e := range v.Kids {
+					e = Untag(e)
 					if !e.IsInt() && e.Major != refcbor.Tstr {
 						return errors.New("crit: entry is not a label")
 					}
 					found := false
 					ce := refcbor.Canon(e)
 					for j := 0; j+1 < len(m.Kids); j += 2 {
-						if bytes.Equal(refcbor.Canon(m.Kids[j]), ce) {
+						if bytes.Equal(refcbor.Canon(Untag(m.Kids[j])), ce) {
 							found = true
 						}
 					}
